@@ -39,6 +39,10 @@ type st struct {
 	Tags    []string          `json:"tags"`
 	Viol    []xstate.Violation `json:"viol"` // violations of the last action
 	Outcome string            `json:"outcome"`
+	// what stock git already complained about in this state (a later action is only blamed for
+	// new complaints)
+	HostFsck   []string `json:"host_fsck"`
+	RemoteFsck []string `json:"remote_fsck"`
 }
 
 type model struct {
@@ -240,25 +244,46 @@ func (m *model) judge(a string, prev, next *st) (viol []xstate.Violation, tags [
 	// validity: stock git judges, whenever objects or git-bug refs changed
 	changedHost := prev.Host.ObjState != next.Host.ObjState || strings.Join(prev.Host.BugRefs, "\n") != strings.Join(next.Host.BugRefs, "\n")
 	changedRemote := prev.Remote.ObjState != next.Remote.ObjState || strings.Join(prev.Remote.BugRefs, "\n") != strings.Join(next.Remote.BugRefs, "\n")
-	fsck := func(where, dir string) {
+	fsck := func(where, dir string, before []string) (now []string) {
 		r, e := runGit(dir, 300*time.Second, nil, "fsck", "--strict", "--no-dangling")
 		if e != nil {
 			err = e
-			return
+			return before
 		}
 		msgs := fsckClasses(r.Out + r.Err)
-		if r.Code != 0 {
-			add("c15.fsck."+where, a+":"+strings.Join(msgs, ","), "after %s, `git fsck --strict --no-dangling` on the %s exits %d: %s", a, where, r.Code, clip(r.Out+r.Err))
-		} else if len(msgs) > 0 {
-			tags = append(tags, "fsck-note:"+strings.Join(msgs, ","))
+		if r.Code == 0 {
+			if len(msgs) > 0 {
+				tags = append(tags, "fsck-note:"+strings.Join(msgs, ","))
+			}
+			return nil
 		}
+		if len(msgs) == 0 {
+			msgs = []string{fmt.Sprintf("exit %d", r.Code)}
+		}
+		was := map[string]bool{}
+		for _, b := range before {
+			was[b] = true
+		}
+		var fresh []string
+		for _, x := range msgs {
+			if !was[x] {
+				fresh = append(fresh, x)
+			}
+		}
+		if len(fresh) > 0 {
+			add("c15.fsck."+where, a+":"+strings.Join(fresh, ","), "after %s (%s), `git fsck --strict --no-dangling` on the %s exits %d: %s", a, next.Outcome, where, r.Code, clip(r.Out+r.Err))
+		} else {
+			tags = append(tags, "fsck-still-failing")
+		}
+		return msgs
 	}
+	next.HostFsck, next.RemoteFsck = prev.HostFsck, prev.RemoteFsck
 	if changedHost {
-		fsck("host", m.host())
+		next.HostFsck = fsck("host", m.host(), prev.HostFsck)
 		tags = append(tags, "fsck-host")
 	}
 	if changedRemote {
-		fsck("remote", m.remote())
+		next.RemoteFsck = fsck("remote", m.remote(), prev.RemoteFsck)
 		tags = append(tags, "fsck-remote")
 		if v := m.mirrorRoundTrip(a, next.Remote.BugRefs); v != nil {
 			if v.Oracle == "harness" {
